@@ -1,18 +1,20 @@
 (* C08 (Ogg family) -- delete() removes the tags and nothing else.
    In Ogg the comment header is mandatory: delete = tags.clear() + _inject with padding 0.  (a) the packet written holds
    the vendor string, zero comments and zero padding (unconditional); (b) the file stays well-formed and every other
-   stream keeps its pages (C03_ogg_delete / C02_ogg_delete, restated); (c) file level (`_partial`, alignment hypothesis
-   as in C01_ogg): the independent reader finds vendor + no comments + padding 0. *)
+   stream keeps its pages (C03_ogg_delete / C02_ogg_delete, restated); (c) file level, for files laid out as the codec
+   mappings prescribe (ogg_mapped, see C01_ogg): the independent reader finds vendor + no comments + padding 0
+   (C08_ogg_delete; the version with the alignment as a hypothesis is kept as C08_ogg_delete_partial). *)
 From Coq Require Import ZArith List Bool Lia.
 Import ListNotations.
 Require Import Base.Py Base.ZList Gen.Gen_tags Model.Crc Model.Ogg Model.Fam_flac Model.Fam_ogg
-  Proofs.Fam_ogg_inject Proofs.Fam_ogg_thms Proofs.Fam_ogg_final Proofs.Fam_ogg_c01 Proofs.Fam_ogg_load Proofs.Fam_ogg_examples.
+  Proofs.Fam_ogg_inject Proofs.Fam_ogg_thms Proofs.Fam_ogg_final Proofs.Fam_ogg_c01 Proofs.Fam_ogg_load Proofs.Fam_ogg_mapped
+  Proofs.Fam_ogg_examples.
 Open Scope Z_scope.
 
 Theorem C08_ogg_packet : forall c vendor pad fsize old d,
   ogg_f_new_packet c (mkVC vendor []) pad (Some (fun _ _ => 0)) fsize old = Ok d ->
   (c = OOpus -> pad = [] \/ exists b r, pad = b :: r /\ ogg_f_odd b = true) ->
-  (c = OFlac -> (exists h r, old = h :: r /\ h mod 128 = 4) /\ zlen (vc_render (mkVC vendor [])) <= MAXSZ) ->
+  (c = OFlac -> exists h r, old = h :: r /\ h mod 128 = 4) ->
   ogg_f_decode c d = Ok (mkVC vendor [], match c with
                                          | OFlac => -1
                                          | _ => match c, pad with OOpus, _ :: _ => -1 | _, _ => 0 end end).
@@ -30,12 +32,25 @@ Theorem C08_ogg_delete_partial : forall f c f' pages,
     ogg_open f c = Ok (vendor, pad) /\
     cut_ok c (mkVC vendor []) pad (Some (fun _ _ => 0)) pages olds news k /\
     (ogg_aligned c pages k ->
-     (c = OFlac -> (exists h r, cut_p0 k = h :: r /\ h mod 128 = 4) /\ zlen (vc_render (mkVC vendor [])) <= MAXSZ) ->
+     (c = OFlac -> exists h r, cut_p0 k = h :: r /\ h mod 128 = 4) ->
      ogg_load f' c = Ok (mkVC vendor [], match c with
                                          | OFlac => -1
                                          | _ => match c, pad with OOpus, _ :: _ => -1 | _, _ => 0 end end)).
 Proof. exact delete_load. Qed.
 Print Assumptions C08_ogg_delete_partial.
+
+Theorem C08_ogg_delete : forall f c f' pages,
+  ogg_parse f = Ok pages -> ogg_f_streams_ok pages = true -> ogg_mapped c pages ->
+  ogg_delete f c = Ok f' ->
+  exists olds news k vendor pad,
+    ogg_open f c = Ok (vendor, pad) /\
+    cut_ok c (mkVC vendor []) pad (Some (fun _ _ => 0)) pages olds news k /\
+    ((c = OFlac -> exists h r, cut_p0 k = h :: r /\ h mod 128 = 4) ->
+     ogg_load f' c = Ok (mkVC vendor [], match c with
+                                         | OFlac => -1
+                                         | _ => match c, pad with OOpus, _ :: _ => -1 | _, _ => 0 end end)).
+Proof. exact delete_load_mapped. Qed.
+Print Assumptions C08_ogg_delete.
 
 Example C08_ogg_ex :
   ogg_delete ex_vorbis OVorbis = Ok ex_vorbis_deleted /\ ogg_wf ex_vorbis_deleted = true /\
